@@ -188,6 +188,12 @@ pub struct Model {
     pub active: Vec<u8>,
     /// record currently being encoded by the thread inside the appender
     pub pending: Option<(RecId, Vec<u8>)>,
+    /// bytes a failed encoder left in the appender's user-space buffer: they
+    /// reach the file with the next flush (or when the writer is closed)
+    pub limbo: Vec<u8>,
+    /// records whose append failed (injected encoder error): unacknowledged,
+    /// they may still show up whole if the encoder had written all of their bytes
+    pub unacked: std::collections::HashSet<RecId>,
     /// managed archive index → uncompressed content
     pub window: BTreeMap<u32, Vec<u8>>,
     /// every other file (relative key → bytes)
@@ -198,6 +204,15 @@ pub struct Model {
 }
 
 impl Model {
+    /// Truncate mode discards the active chunk at open: its acknowledged
+    /// records are the tail of the stream.
+    pub fn discard_active(&mut self) {
+        let n = frame::whole_ids(&self.active).into_iter().filter(|i| !self.unacked.contains(i)).count();
+        let keep = self.stream.len().saturating_sub(n);
+        self.stream.truncate(keep);
+        self.active.clear();
+    }
+
     pub fn managed(&self) -> Vec<u32> {
         match &self.roller {
             RollerSpec::Delete => vec![],
@@ -208,6 +223,8 @@ impl Model {
     /// Applies one completed roll of the active file.
     pub fn on_roll(&mut self) {
         let mut chunk = std::mem::take(&mut self.active);
+        // closing the writer flushes what a failed encoder left behind
+        chunk.extend_from_slice(&std::mem::take(&mut self.limbo));
         if let Some((_, p)) = self.pending.take() {
             // post-processing trigger: the record was written and flushed before the roll
             chunk.extend_from_slice(&p);
@@ -304,8 +321,13 @@ impl Model {
         let have = actual.get(&akey).unwrap_or(&empty);
         let ok = if have == &self.active {
             true
-        } else if let Some((_, p)) = &self.pending {
-            allow_pending && have.starts_with(&self.active) && p.starts_with(&have[self.active.len()..])
+        } else if have.starts_with(&self.active) {
+            // a prefix of: leftovers of failed encodes, then (if someone is inside) the pending record
+            let mut tail = self.limbo.clone();
+            if let (true, Some((_, p))) = (allow_pending, &self.pending) {
+                tail.extend_from_slice(p);
+            }
+            tail.starts_with(&have[self.active.len()..])
         } else {
             false
         };
@@ -341,11 +363,11 @@ impl Model {
         for i in idx {
             if let Some(b) = actual.get(&names.key(&names.arch(i))) {
                 let plain = if names.gz { gunzip(b).unwrap_or_default() } else { b.clone() };
-                seq.extend(frame::whole_ids(&plain));
+                seq.extend(frame::whole_ids(&plain).into_iter().filter(|i| !self.unacked.contains(i)));
             }
         }
         if let Some(b) = actual.get(&names.key(&names.active)) {
-            seq.extend(frame::whole_ids(b));
+            seq.extend(frame::whole_ids(b).into_iter().filter(|i| !self.unacked.contains(i)));
         }
         if seq.is_empty() {
             return true;
@@ -568,6 +590,7 @@ impl Model {
         let mut ok = true;
         self.window.clear();
         self.pending = None;
+        self.limbo.clear();
         let mut stream = vec![];
         let managed = self.managed();
         for i in managed.iter().rev() {
